@@ -393,7 +393,7 @@ theorem C07_extend_reads_current (w : World V) (hw : MemoOK w) (s : Nat) (ext : 
   | none => rfl
   | some i =>
     simp only
-    cases (if sharesWithBaseline w w.systems[s] = true then ownCopy w s i else (w, i)) with
+    cases (if isReform w.systems[s] = true then ownCopy w s i else (w, i)) with
     | mk w1 j =>
       simp only
       cases w1.heap[j]? with
@@ -404,28 +404,25 @@ theorem C07_extend_reads_current (w : World V) (hw : MemoOK w) (s : Nat) (ext : 
         | scale m bs => rfl
         | node cs => rfl
 
-/-- An extension loaded on a reform never changes the tree of that reform's baseline: a reform that
-    still refers to its baseline's object is given a copy of its own before the merge (repair C14f),
-    and otherwise the object merged into is not the baseline's. -/
-theorem C07_extend_spares_baseline (w : World V) (hw : RefsOK w) (s b : Nat) (r : SysRec)
-    (hr : w.systems[s]? = some r) (hb : r.baseline = some b) (hne : b ≠ s) (hbl : b < w.systems.length)
+/-- An extension loaded on a reform (any system with a baseline) never changes the tree of ANY other
+    system: the reform is given a copy of its own before the merge (repairs C14f/C14g), whatever systems
+    it shared its tree with — its baseline, the baselines above, other reforms of them. Only an extension
+    loaded on a root system changes an object other systems may refer to. -/
+theorem C07_extend_spares_others (w : World V) (hw : RefsOK w) (s b s' : Nat) (r : SysRec)
+    (hr : w.systems[s]? = some r) (hb : r.baseline = some b) (hne : s' ≠ s) (hs' : s' < w.systems.length)
     (ext : List (String × PNode V)) :
-    (step w (.extend s ext)).1.treeOf b = w.treeOf b := by
-  apply step_treeOf_other w hw _ b hbl
+    (step w (.extend s ext)).1.treeOf s' = w.treeOf s' := by
+  apply step_treeOf_other w hw _ s' hs'
   simp only [Op.spares, Bool.and_eq_true, bne_iff_ne, ne_eq]
   refine ⟨fun c => hne c.symm, ?_⟩
-  rw [hr, List.getElem?_eq_getElem hbl]
-  simp only [Bool.or_eq_true, bne_iff_ne, ne_eq, sharesWithBaseline, hb, List.getElem?_eq_getElem hbl, beq_iff_eq]
-  by_cases h : w.systems[b].tree = r.tree
-  · exact Or.inl h
-  · exact Or.inr (fun c => h c.symm)
+  rw [hr, List.getElem?_eq_getElem hs']
+  simp [isReform, hb]
 
 /-- A reform that has not replaced its tree refers to its baseline's object: an extension loaded on the
-    BASELINE (system 0) after both views were read shows through every route of both (reform 1 follows);
-    an extension loaded on the un-modified REFORM (system 1) goes to a copy of its own — the baseline does
-    not change, and a reform stacked on it earlier (system 2, which refers to the same old object) does
-    not follow either. A conflicting extension (`x` exists) stops, having added `a` — and the views
-    still follow the tree. -/
+    ROOT system 0 after the views were read shows through every route of all three (reforms 1 and 2
+    follow); an extension loaded on a REFORM (system 1, or system 2 stacked on it) goes to a copy of its
+    own — nobody else changes. A conflicting extension (`x` exists) stops, having added `a` — and the
+    views still follow the tree. -/
 example :
     let w0 : World Nat := ⟨[.node [("x", .param [⟨10, some 7⟩])]], [⟨some 0, none⟩, ⟨some 0, some 0⟩, ⟨some 0, some 1⟩], []⟩
     let ext : List (String × PNode Nat) := [("a", .param [⟨10, some 1⟩]), ("x", .param [⟨10, some 2⟩]), ("b", .param [⟨10, some 3⟩])]
@@ -437,8 +434,11 @@ example :
     (step (run w0 (reads ++ [.extend 1 ext])) (.readView 1 0 12 ["a"])).2 = .value (.ok (some (.val 1))) [] ∧
     (step (run w0 (reads ++ [.extend 1 ext])) (.readView 0 0 12 ["a"])).2 = .value (.error "ParameterNotFoundError") [] ∧
     (step (run w0 (reads ++ [.extend 1 ext])) (.readView 2 0 12 ["a"])).2 = .value (.error "ParameterNotFoundError") [] ∧
-    (step (run w0 (reads ++ [.extend 1 ext])) (.readTree 0 ["a"] 12)).2 = .value (.error "AttributeError") [] :=
-  ⟨rfl, rfl, rfl, rfl, rfl, rfl, rfl, rfl⟩
+    (step (run w0 (reads ++ [.extend 1 ext])) (.readTree 0 ["a"] 12)).2 = .value (.error "AttributeError") [] ∧
+    (step (run w0 (reads ++ [.extend 1 ext, .extend 2 ext])) (.readView 2 0 12 ["a"])).2 = .value (.ok (some (.val 1))) [] ∧
+    (step (run w0 (reads ++ [.extend 1 ext, .extend 2 ext])) (.readView 0 0 12 ["a"])).2 = .value (.error "ParameterNotFoundError") [] ∧
+    (step (run w0 (reads ++ [.extend 0 ext])) (.readView 2 0 12 ["a"])).2 = .value (.ok (some (.val 1))) [] :=
+  ⟨rfl, rfl, rfl, rfl, rfl, rfl, rfl, rfl, rfl, rfl, rfl⟩
 
 /-- `_get_baseline_parameters_at_instant` is the view of the root of the chain of baselines: it reads
     that system's current tree. -/
@@ -457,9 +457,9 @@ example : rootOf [⟨some 0, none⟩, ⟨some 0, some 0⟩, ⟨some 1, some 1⟩
 /-- Whatever is done through reforms — creating them, running any modifier functions on them,
     reloading them, reading anything anywhere — as long as no operation of the history replaces the
     tree of system `b` itself, nor merges an extension into the object `b` refers to (`Spared`: an
-    extension loaded on a reform that still shares its baseline's object goes to a copy, in particular
-    one loaded on a reform of `b` never reaches `b` — `C07_extend_spares_baseline`; one loaded on `b`
-    itself, or in place on an object that `b` also refers to, is excluded), `b` keeps its tree and every read of `b` after the history returns what the
+    extension loaded on a reform always goes to a copy and never reaches anybody else —
+    `C07_extend_spares_others`; one loaded on `b` itself, or on a root system whose object `b` still
+    refers to, is excluded), `b` keeps its tree and every read of `b` after the history returns what the
     same read returns before it. -/
 theorem C07_reform_isolated (w : World V) (hw : MemoOK w) (ops : List (Op V)) (b : Nat)
     (hb : b < w.systems.length) (hops : Spared b w ops)
@@ -544,6 +544,6 @@ end OFCore
 #print axioms OFCore.C07_merge_spec
 #print axioms OFCore.C07_extend_reads_current
 #print axioms OFCore.C07_base_view
-#print axioms OFCore.C07_extend_spares_baseline
+#print axioms OFCore.C07_extend_spares_others
 #print axioms OFCore.C07_reform_isolated_static
 #print axioms OFCore.C07_reform_isolated
